@@ -121,6 +121,47 @@ func (k *keys) craft(server bool, sid, pid uint64, typ int, ts int64, csid uint6
 	return append(enc, ct...)
 }
 
+// decode is the harness-side view of a datagram (it holds the keys): what the unpacker can observe of it.
+// ownSid != nil: server side, the AEAD key is the one of the session under test.
+func (k *keys) decode(pkt []byte, server bool, ownSid *uint64) (tr truth) {
+	tr.long = len(pkt) >= 32
+	if len(pkt) < 16 {
+		return
+	}
+	hdr := make([]byte, 16)
+	k.block.Decrypt(hdr, pkt[:16])
+	tr.sid, tr.pid = binary.BigEndian.Uint64(hdr), binary.BigEndian.Uint64(hdr[8:])
+	if !tr.long {
+		return
+	}
+	keySid := tr.sid
+	if ownSid != nil {
+		keySid = *ownSid
+	}
+	plain, err := k.aead(keySid).Open(nil, hdr[4:16], pkt[16:], nil)
+	if err != nil {
+		return
+	}
+	tr.auth = true
+	fixed := 11
+	if server {
+		fixed = 19
+	}
+	if len(plain) < fixed {
+		return
+	}
+	tr.hdr = true
+	tr.typ = int(plain[0])
+	tr.ts = int64(binary.BigEndian.Uint64(plain[1:]))
+	if server {
+		tr.csid = binary.BigEndian.Uint64(plain[9:])
+	}
+	pad := int(binary.BigEndian.Uint16(plain[fixed-2:]))
+	rest := plain[fixed:]
+	tr.rest = pad <= len(rest) && len(rest)-pad >= 7 && rest[pad] == 1
+	return
+}
+
 func classify(err error) string {
 	switch {
 	case err == nil:
@@ -272,6 +313,10 @@ func runUInner(c UCase, res *uResult) {
 	res.ran = make([]bool, n)
 	tableSid := func(i int) uint64 { return sids[((i%len(sids))+len(sids))%len(sids)] }
 
+	var own *uint64
+	if c.Side == "server" {
+		own = &csid
+	}
 	for i, e := range c.Events {
 		if e.Skip {
 			continue
@@ -340,31 +385,28 @@ func runUInner(c UCase, res *uResult) {
 				continue // the referenced event was not executed
 			}
 			pkt = append([]byte(nil), bytesOf[ref]...)
-			tr = res.truths[ref]
 			switch e.Kind {
 			case "flip":
 				bit := ((e.Bit % (len(pkt) * 8)) + len(pkt)*8) % (len(pkt) * 8)
 				pkt[bit/8] ^= 1 << (bit % 8)
-				tr.auth = false
 			case "trunc":
 				cut := 1 + ((e.Bit%len(pkt))+len(pkt))%len(pkt)
 				pkt = pkt[:len(pkt)-cut]
-				tr.auth = false
 			}
-			tr.long = len(pkt) >= 32
-			if len(pkt) >= 16 {
-				k.block.Decrypt(hdr, pkt[:16])
-				tr.sid, tr.pid = binary.BigEndian.Uint64(hdr), binary.BigEndian.Uint64(hdr[8:])
-			}
+			tr = k.decode(pkt, c.Side == "client", own)
 		case "short":
 			pkt = common.NewRng(c.Seed ^ uint64(i)).Bytes(((e.Bit % 32) + 32) % 32)
-			tr = truth{long: false}
-			if len(pkt) >= 16 {
-				k.block.Decrypt(hdr, pkt[:16])
-				tr.sid, tr.pid = binary.BigEndian.Uint64(hdr), binary.BigEndian.Uint64(hdr[8:])
-			}
+			tr = k.decode(pkt, c.Side == "client", own)
 		default:
 			panic("unknown event kind " + e.Kind)
+		}
+		if e.Kind == "real" || e.Kind == "craft" { // self-check of the harness: construction and decoder agree
+			d := k.decode(pkt, c.Side == "client", own)
+			if d.sid != tr.sid || d.pid != tr.pid || d.auth != tr.auth || d.long != tr.long || (d.auth && d.hdr != tr.hdr) ||
+				(d.auth && d.hdr && (d.typ != tr.typ || d.ts != tr.ts || d.rest != tr.rest || (c.Side == "client" && d.csid != tr.csid))) {
+				panic(fmt.Sprintf("harness self-check: event %d constructed as %+v but decodes as %+v", i, tr, d))
+			}
+			tr = d
 		}
 		bytesOf[i] = append([]byte(nil), pkt...)
 		res.truths[i] = tr
@@ -475,8 +517,7 @@ func oracleU(c UCase, res *uResult) (key, detail string) {
 	if f := strings.Fields(res.lines[0]); c.Side == "client" {
 		csid, _ = strconv.ParseUint(f[3], 10, 64)
 	}
-	type dkey struct{ sid, pid uint64 }
-	everDelivered := map[dkey]string{} // -> where it was delivered
+	everDelivered := map[int]string{} // root event index -> where it was delivered
 	var cur, old *sessLog
 	var curSid, oldSid uint64
 	var lastChange int64
@@ -510,17 +551,27 @@ func oracleU(c UCase, res *uResult) (key, detail string) {
 			}
 			continue
 		}
-		// client
-		dk := dkey{tr.sid, tr.pid}
+		// client: the very same packet (same bytes: a replay of an earlier event) is never delivered twice, whatever
+		// happened to its session in between; within one life of a session no packet id is delivered twice.
+		root := i
+		for c.Events[root].Kind == "replay" {
+			root = c.Events[root].Ref
+		}
 		if ok {
-			if where, dup := everDelivered[dk]; dup {
+			if where, dup := everDelivered[root]; dup {
 				loc := "dropped-session"
 				if cur != nil && tr.sid == curSid {
 					loc = "current-session"
 				} else if old != nil && tr.sid == oldSid {
 					loc = "old-session"
 				}
-				return "double-delivery:client:" + loc, fmt.Sprintf("event %d: server session %d packet id %d delivered a second time (first: %s)", i, tr.sid, tr.pid, where)
+				return "double-delivery:client:" + loc, fmt.Sprintf("event %d: the packet of event %d (server session %d, packet id %d) delivered a second time (first: %s)", i, root, tr.sid, tr.pid, where)
+			}
+			if cur != nil && tr.sid == curSid && cur.delivered[tr.pid] {
+				return "double-delivery:client:same-id-current", fmt.Sprintf("event %d: packet id %d of the current server session delivered a second time", i, tr.pid)
+			}
+			if old != nil && tr.sid == oldSid && !(cur != nil && tr.sid == curSid) && old.delivered[tr.pid] {
+				return "double-delivery:client:same-id-old", fmt.Sprintf("event %d: packet id %d of the old server session delivered a second time", i, tr.pid)
 			}
 		}
 		switch {
@@ -550,7 +601,7 @@ func oracleU(c UCase, res *uResult) (key, detail string) {
 			}
 		}
 		if ok {
-			everDelivered[dk] = fmt.Sprintf("event %d", i)
+			everDelivered[root] = fmt.Sprintf("event %d", i)
 		}
 	}
 	return "", ""
@@ -694,6 +745,36 @@ type uOutcome struct {
 	impl, model         []string
 }
 
+var udrv *common.Driver
+
+// askDriver keeps one driver process for the whole engine (every case starts with `srv new` / `cli new`).
+func askDriver(o *common.Options, lines []string) ([]string, error) {
+	if udrv == nil {
+		d, err := common.StartDriver(o.Driver)
+		if err != nil {
+			return nil, err
+		}
+		udrv = d
+	}
+	return udrv.Batch(lines)
+}
+
+// renameSids replaces session ids in an output line by their order of first appearance (the real packers draw
+// random session ids, which differ between two runs of the same case).
+func renameSids(l string, names map[string]string) string {
+	f := strings.Fields(l)
+	for i := 1; i < len(f); i++ {
+		if f[i] == "-" || f[i] == "filter" || f[i] == "nofilter" {
+			continue
+		}
+		if _, ok := names[f[i]]; !ok {
+			names[f[i]] = fmt.Sprintf("s%d", len(names)+1)
+		}
+		f[i] = names[f[i]]
+	}
+	return strings.Join(f, " ")
+}
+
 // checkU runs one case on implementation, model and oracle.
 func checkU(t *testing.T, c UCase, o *common.Options, full bool) (res uResult, out uOutcome, err error) {
 	res = runU(t, c)
@@ -706,7 +787,7 @@ func checkU(t *testing.T, c UCase, o *common.Options, full bool) (res uResult, o
 	}
 	out.impl = res.impl
 	if o.Driver != "" {
-		model, derr := common.RunDriverOnce(o.Driver, res.lines)
+		model, derr := askDriver(o, res.lines)
 		if derr != nil {
 			return res, out, derr
 		}
@@ -735,6 +816,7 @@ func checkU(t *testing.T, c UCase, o *common.Options, full bool) (res uResult, o
 				return
 			}
 			l1, l2 := 0, 0
+			n1, n2 := map[string]string{}, map[string]string{}
 			for i := range c.Events {
 				if res.ran[i] {
 					l1++
@@ -742,10 +824,13 @@ func checkU(t *testing.T, c UCase, o *common.Options, full bool) (res uResult, o
 				if res2.ran[i] {
 					l2++
 				}
-				if res.ran[i] && res2.ran[i] && res.impl[l1] != res2.impl[l2] {
-					out.failKey = "junk-changed-verdicts"
-					out.failDetail = fmt.Sprintf("event %d: %q with the junk events present, %q without them", i, res.impl[l1], res2.impl[l2])
-					return
+				if res.ran[i] && res2.ran[i] {
+					a, b := renameSids(res.impl[l1], n1), renameSids(res2.impl[l2], n2)
+					if a != b {
+						out.failKey = "junk-changed-verdicts"
+						out.failDetail = fmt.Sprintf("event %d: %q with the junk events present, %q without them", i, a, b)
+						return
+					}
 				}
 			}
 		}
